@@ -17,7 +17,7 @@ use hulc::ctehexml::{self, CtehexmlData};
 use crate::engine::{fnv64, mix, worker_call, Args, CaseH, Ctx, ReplayDoc, Tier, Verdict, WorkerOut};
 use crate::util::{files_named, files_with_ext, read_latin1};
 
-pub const EDITS: [&str; 11] = ["delete-line", "duplicate-line", "truncate-after", "number->abc", "number->1e39", "number->-1", "number->NaN", "number->0", "number->99", "rename-quoted", "delete-block"];
+pub const EDITS: [&str; 13] = ["delete-line", "duplicate-line", "truncate-after", "truncate-inside-a", "truncate-inside-b", "number->abc", "number->1e39", "number->-1", "number->NaN", "number->0", "number->99", "rename-quoted", "delete-block"];
 
 #[derive(Clone, Debug, Serialize, Deserialize)]
 pub struct FaultCase {
@@ -123,6 +123,17 @@ pub fn apply_edit(lines: &[&str], eol: &str, c: &FaultCase, kind: Kind) -> Optio
         }
         "truncate-after" => {
             out.extend(lines[..=i].iter().map(|l| l.to_string()));
+        }
+        "truncate-inside-a" | "truncate-inside-b" => {
+            // the file ends in the middle of this line (a transfer cut short): two seeded cut points per line
+            let l = lines[i];
+            let n = l.chars().count();
+            if n < 2 {
+                return None;
+            }
+            let cut = 1 + (fnv64(format!("{}{}{}", c.file, i, c.edit).as_bytes()) % (n as u64 - 1)) as usize;
+            out.extend(lines[..i].iter().map(|l| l.to_string()));
+            out.push(l.chars().take(cut).collect());
         }
         "number->abc" | "number->1e39" | "number->-1" | "number->NaN" | "number->0" | "number->99" => {
             let (a, b) = first_number_span(lines[i])?;
@@ -398,7 +409,7 @@ fn short(p: &str) -> &str {
 
 pub fn run(args: &Args) -> ! {
     let ctx = Ctx::new("C19", "fault_enumeration", args);
-    ctx.rule("fault enumeration: for every shipped project file (.ctehexml, legacy .cte, KyGananciasSolares.txt, NewBDL_O.tbl; located by glob at run time) and every line: delete / duplicate / truncate-after / first number -> abc, 1e39, -1, NaN, 0, 99 / rename the quoted name / delete the enclosing block; plus the intact file. thorough = every line; quick = a seeded 1/48 slice of the lines of every file plus one line of every distinct attribute key and block type per file kind (all edit kinds on each chosen line). extra_files: the same edits of every KyGananciasSolares.txt / NewBDL_O.tbl that lies next to a project (thorough: every line, quick: a seeded 1/6 slice), placed with the intact project file in a scratch directory and read through hulc2model::collect_hulc_data(dir, true, true). saved_inputs: crashing inputs of earlier fuzz campaigns kept as plain files under regressions/C19/inputs, replayed in every run. For .ctehexml projects the conversion is followed by the stage the export tool adds (fix_ecdata_from_extra: indicators of the converted model, i.e. U values and shading by ray casting) for every number edit and a quarter of the others. Each damaged text goes through parse (+ LIDER catalogue merge) + Model::try_from (kyg/tbl: parse) in a worker process under a 60 s watchdog: Ok or Err passes, panic / hang / process death is a violation, one per distinct panic signature (file + function + masked message). Non-trivial: the damaged line is neither blank nor a comment.");
+    ctx.rule("fault enumeration: for every shipped project file (.ctehexml, legacy .cte, KyGananciasSolares.txt, NewBDL_O.tbl; located by glob at run time) and every line: delete / duplicate / truncate-after / cut inside the line at two seeded positions / first number -> abc, 1e39, -1, NaN, 0, 99 / rename the quoted name / delete the enclosing block; plus the intact file. thorough = every line; quick = a seeded 1/48 slice of the lines of every file plus one line of every distinct attribute key, block type and XML tag per file kind (all edit kinds on each chosen line). extra_files: the same edits of every KyGananciasSolares.txt / NewBDL_O.tbl that lies next to a project (thorough: every line, quick: a seeded 1/6 slice), placed with the intact project file in a scratch directory and read through hulc2model::collect_hulc_data(dir, true, true). saved_inputs: crashing inputs of earlier fuzz campaigns kept as plain files under regressions/C19/inputs, replayed in every run. For .ctehexml projects the conversion is followed by the stage the export tool adds (fix_ecdata_from_extra: indicators of the converted model, i.e. U values and shading by ray casting) for every number edit and a quarter of the others. Each damaged text goes through parse (+ LIDER catalogue merge) + Model::try_from (kyg/tbl: parse) in a worker process under a 60 s watchdog: Ok or Err passes, panic / hang / process death is a violation, one per distinct panic signature (file + function + masked message). Non-trivial: the damaged line is neither blank nor a comment.");
     ctx.assume("the LIDER catalogue is decoded once per worker and merged per case exactly as parse_with_catalog does; 1 case in 64 goes through the real parse_with_catalog as a cross-check");
     ctx.replay_regressions(replay_one);
     let files = corpus();
@@ -417,9 +428,13 @@ pub fn run(args: &Args) -> ! {
             let kindname = format!("{:?}", kind_of(&path));
             for (i, l) in text.split(eol).enumerate() {
                 let key = match l.split_once('=') {
-                    Some((k, _)) if !k.trim().starts_with('"') => k.trim().to_string(),
-                    Some((_, v)) => format!("=block:{}", v.trim()),
-                    None => continue,
+                    Some((k, _)) if !k.trim().starts_with('"') && !k.trim().starts_with('<') => k.trim().to_string(),
+                    Some((k, v)) if k.trim().starts_with('"') => format!("=block:{}", v.trim()),
+                    // lines of the XML sections: one line per distinct tag
+                    _ => match l.trim().strip_prefix('<') {
+                        Some(rest) if !rest.starts_with('/') && !rest.starts_with('?') && !rest.starts_with('!') => format!("<{}", rest.split(|ch: char| ch == '>' || ch == ' ' || ch == '/').next().unwrap_or("")),
+                        _ => continue,
+                    },
                 };
                 if key.len() > 40 {
                     continue;
